@@ -12,9 +12,9 @@ import subprocess
 import sys
 
 prop, m = sys.argv[1], sys.argv[2]
-wt = f"/tmp/wt-{prop}"
+wt = os.environ.get("SEED_WT", f"/tmp/wt-{prop}")
 seed = f"{wt}/seed/{m}"
-dst = f"/verif/seeded/{prop}-{m}"
+dst = os.environ.get("SEED_DST", f"/verif/seeded/{prop}-{m}")
 
 
 def sh(cmd, **kw):
